@@ -139,7 +139,10 @@ pub struct RespSpec {
     /// Connection field values, in order
     pub conn: Vec<&'static str>,
     pub generic_fields: usize,
-    pub location: Option<String>,
+    /// Location field values in wire order (the last one counts)
+    pub location: Vec<String>,
+    /// raw Location values that are not valid UTF-8 / arbitrary bytes (appended after `location`)
+    pub location_raw: Vec<Vec<u8>>,
     /// length of a close-delimited body
     pub close_len: usize,
 }
@@ -160,12 +163,17 @@ pub fn build_resp(ctx: &mut Ctx, method: &str, s: &RespSpec) -> RespPlan {
     for c in &s.conn {
         special.push(Field::plain(if ctx.flip() { "Connection" } else { "connection" }, c));
     }
-    if let Some(l) = &s.location {
-        special.push(Field::plain("Location", l));
-    }
     for f in special {
         let at = ctx.range(0, fields.len());
         fields.insert(at, f);
+    }
+    // Location fields keep their relative order
+    let mut from = 0usize;
+    for l in s.location.iter().map(|l| l.as_bytes().to_vec()).chain(s.location_raw.iter().cloned()) {
+        let at = ctx.range(from, fields.len());
+        let name = if ctx.chance(1, 4) { "location" } else { "Location" };
+        fields.insert(at, Field { name: name.to_string(), ows_before: b" ".to_vec(), value: l, ows_after: Vec::new() });
+        from = at + 1;
     }
     let head = RespHead { http11: s.http11, status: s.status, reason: gen_reason(ctx), fields };
     let rd = head.render();
@@ -328,8 +336,8 @@ fn gen_c01_resp(ctx: &mut Ctx, method: &str, last: bool) -> RespPlan {
             2 => vec!["keep-alive", "close"],
             _ => vec![],
         };
-        let location = if (300..400).contains(&status) && ctx.chance(3, 4) { Some("/next?x=1".to_string()) } else { None };
-        let spec = RespSpec { status, http11, cl, te, conn, generic_fields: if ctx.chance(1, 10) { ctx.range(0, 40) } else { ctx.range(0, 5) }, location, close_len: if ctx.chance(1, 8) { ctx.range(0, 20_000) } else { ctx.range(0, 200) } };
+        let location = if (300..400).contains(&status) && ctx.chance(3, 4) { vec!["/next?x=1".to_string()] } else { vec![] };
+        let spec = RespSpec { status, http11, cl, te, conn, generic_fields: if ctx.chance(1, 10) { ctx.range(0, 40) } else { ctx.range(0, 5) }, location, location_raw: vec![], close_len: if ctx.chance(1, 8) { ctx.range(0, 20_000) } else { ctx.range(0, 200) } };
         let plan = build_resp(ctx, method, &spec);
         match plan.truth {
             RF::DontCare | RF::Error => continue,
@@ -603,7 +611,7 @@ pub fn c06(ctx: &mut Ctx) -> R {
     cfg.added.retain(|(n, _)| n != "content-length" && n != "transfer-encoding");
     cfg.framing = crate::reqgen::Framing::None;
     let body = gen_req_body(ctx, &cfg, true);
-    let spec = RespSpec { status, http11, cl, te, conn: vec![], generic_fields: ctx.range(0, 3), location: if (300..400).contains(&status) && ctx.flip() { Some("/n".into()) } else { None }, close_len: ctx.range(0, 300) };
+    let spec = RespSpec { status, http11, cl, te, conn: vec![], generic_fields: ctx.range(0, 3), location: if (300..400).contains(&status) && ctx.flip() { vec!["/n".into()] } else { vec![] }, location_raw: vec![], close_len: ctx.range(0, 300) };
     let plan = build_resp(ctx, method, &spec);
     let one_shot = ctx.chance(3, 4);
     let mut tail = Vec::new();
@@ -787,7 +795,7 @@ pub fn c10(ctx: &mut Ctx) -> R {
             }
         };
         let status = if all_five && (status < 200 || status == 204 || status == 304 || (300..400).contains(&status)) { 403 } else { status };
-        let spec = RespSpec { status, http11, cl, te, conn, generic_fields: ctx.range(0, 3), location: if (300..400).contains(&status) && ctx.chance(3, 4) { Some("/moved".into()) } else { None }, close_len: ctx.range(0, 100) };
+        let spec = RespSpec { status, http11, cl, te, conn, generic_fields: ctx.range(0, 3), location: if (300..400).contains(&status) && ctx.chance(3, 4) { vec!["/moved".into()] } else { vec![] }, location_raw: vec![], close_len: ctx.range(0, 100) };
         let p = build_resp(ctx, &cfg.method, &spec);
         if !matches!(p.truth, RF::DontCare | RF::Error) {
             break p;
@@ -947,7 +955,7 @@ pub fn c11(ctx: &mut Ctx) -> R {
         let nf = if ctx.chance(1, 3) { 0 } else { ctx.range(0, 3) };
         // a bare head (no fields at all) is part of the quantifier
         let (cl, te) = if nf == 0 && ctx.chance(1, 2) { (ClSpec::Absent, None) } else { (cl, te) };
-        let spec = RespSpec { status, http11: ctx.chance(3, 4), cl, te, conn: if ctx.chance(1, 6) { vec!["close"] } else { vec![] }, generic_fields: nf, location: if (300..400).contains(&status) && ctx.flip() { Some("/r".into()) } else { None }, close_len: ctx.range(0, 60) };
+        let spec = RespSpec { status, http11: ctx.chance(3, 4), cl, te, conn: if ctx.chance(1, 6) { vec!["close"] } else { vec![] }, generic_fields: nf, location: if (300..400).contains(&status) && ctx.flip() { vec!["/r".into()] } else { vec![] }, location_raw: vec![], close_len: ctx.range(0, 60) };
         let p = build_resp(ctx, &cfg.method, &spec);
         if !matches!(p.truth, RF::DontCare | RF::Error) {
             break p;
